@@ -4,3 +4,13 @@ const (
 	Limit uint64 = 1 << 10
 	Big          = 1<<64 - 1
 )
+
+const DigestLen = 4
+
+type Step uint8
+
+const (
+	StepNew  = Step(0x01)
+	StepWait = Step(0x02)
+	StepDone = Step(0x03)
+)
